@@ -5,7 +5,7 @@ EXTENDS Frames
 F(flag, len, body, id) == [flag |-> flag, len |-> len, ilen |-> len, body |-> body, id |-> id, corrupt |-> FALSE]
 FC(flag, len, ilen, body, id, cor) == [flag |-> flag, len |-> len, ilen |-> ilen, body |-> body, id |-> id, corrupt |-> cor]
 Msg(i)   == F(0, 3, "msg", i)
-Big(i)   == F(0, 6, "msg", i)
+Big(i)   == F(0, 8, "msg", i)
 Zero     == F(0, 0, "zero", 0)
 ZeroC    == F(1, 0, "zero", 0)
 CMsg(i)  == FC(1, 4, 6, "msg", i, FALSE)     \* wire 4 bytes, inflates to 6
